@@ -47,7 +47,7 @@ ASSUMPTIONS = [
 ]
 BUDGET = {
     "quick": dict(cases=270, shards=4, timeout=900),
-    "thorough": dict(cases=3600, shards=16, timeout=3000),
+    "thorough": dict(cases=2400, shards=16, timeout=3000),
 }
 CLASSES = [
     "direct", "direct_cv", "direct_log", "direct_cv_detached",
@@ -95,10 +95,10 @@ FLOORS = {
     },
     "thorough": {
         "events": dict({k: v * 25 for k, v in _EV_Q.items()}, **{k: v * 4 for k, v in _EV_X.items()}),
-        "classes": dict({c: 1500 for c in CLASSES}, srswor_exhaustive=275, comb_exhaustive=140, hostile_uniforms=2500),
+        "classes": dict({c: 1200 for c in CLASSES}, srswor_exhaustive=275, comb_exhaustive=140, hostile_uniforms=2000),
         "stats": {"sample-tuples-driven": 100000, "quadrature-points": 250000000},
         "sets": {"estimator-configurations": 400, "srswor-total-given": 28},
-        "distinct": 25000,
+        "distinct": 20000,
     },
 }
 EXHAUSTIVE = {"quick": False, "thorough": False}
